@@ -166,7 +166,7 @@ func checkEntryStorage(c *core.Ctx, rule string) {
 		ok := false
 		an.AllInstrs(fn, func(in ssa.Instruction) {
 			if st, isSt := in.(*ssa.Store); isSt {
-				if fa, isFa := st.Addr.(*ssa.FieldAddr); isFa && an.FieldOf(fa).Name() == "items" {
+				if fa, isFa := st.Addr.(*ssa.FieldAddr); isFa && an.FieldName(an.FieldOf(fa)) == "items" {
 					if call, isCall := st.Val.(*ssa.Call); isCall {
 						if elems, okE := an.SliceElems(call.Call.Args[1]); okE && len(elems) == 1 && elems[0] == ssa.Value(fn.Params[1]) && an.Render(call.Call.Args[0]) == "g.items" {
 							ok = true
